@@ -336,6 +336,17 @@ class SysWorld:
                 self.dw.apply(sub)
                 for _ in range(k):
                     self.net.micro(self.frag)
+        elif o == "remutate":
+            # the driver keeps ONE BLOB object, replaces its content in place and publishes it again
+            el = self.dw.elem(op["v"], op["e"])
+            obj = vars(el).get("_value")
+            b, f = DV.BLOBS[op["x"]]
+
+            def go2():
+                obj.binary, obj.format = b, f
+                el.value = obj
+            if obj is not None:
+                self.run(go2)
         elif o == "burst":
             # several driver-side operations back to back, the loop running in between but nothing delivered yet: the
             # connections are under back-pressure while the later messages are routed
@@ -515,6 +526,13 @@ def c08_runs(r, tier: str) -> List[List[dict]]:
             else:
                 evs.append(w.apply({"o": "assign", "v": 1, "e": 1, "x": "P", "len": n, "wirelen": wl(n)}))       # driver -> clients
                 evs.append(w.apply({"o": "assign", "v": 2, "e": 1, "x": "y"}))                 # traffic after the BLOB
+            if n <= 4096:
+                # the same bytes again under another format, then the same object with new content of the same and of another length
+                DV.BLOBS["P2"] = (payload(n, 1), ".raw" if fmt != ".raw" else ".fits")
+                DV.BLOBS["P3"] = (payload(n, 5), fmt)
+                DV.BLOBS["P4"] = (payload(n + 3, 6), fmt)
+                for tok, how in (("P2", "assign"), ("P3", "remutate"), ("P4", "remutate")):
+                    evs.append(w.apply({"o": how, "v": 1, "e": 1, "x": tok, "len": len(DV.BLOBS[tok][0]), "wirelen": wl(len(DV.BLOBS[tok][0]))}))
             up = {"o": "client-write", "client": 0, "v": 1, "vals": [["thumb", "Q"]], "len": max(0, n - 1), "wirelen": wl(max(0, n - 1))}
             evs.append(w.apply(up))                                                         # client -> driver (through the TCP server handler)
             evs.append(w.apply({"o": "assign", "v": 2, "e": 1, "x": "z"}))
@@ -524,6 +542,8 @@ def c08_runs(r, tier: str) -> List[List[dict]]:
             DV.BLOBS.pop("P", None)
             DV.BLOBS.pop("Q", None)
             DV.BLOBS.pop("T", None)
+            for k in ("P2", "P3", "P4"):
+                DV.BLOBS.pop(k, None)
     return out
 
 
